@@ -252,7 +252,130 @@ func c05Gen(t *rapid.T) c05Case {
 	return c
 }
 
+// c05Special: deterministic entry-point cases outside the generated ranges.
+type c05Special struct {
+	Kind string `json:"kind"`
+	X    vfB    `json:"x,omitempty"`
+	Skip int    `json:"skip,omitempty"`
+}
+
+func c05SpecialCheck(c c05Special) vfResult {
+	var r vfResult
+	r.Nontrivial, r.Labels, r.Hash = true, []string{"special-" + c.Kind}, vfHash([]byte(c.Kind), c.X, vfHashU(uint64(c.Skip)))
+	defer SetLimit(defaultLimit)
+	switch c.Kind {
+	case "seekable-at-offset":
+		// a seekable reader handed over at a non-zero offset: detection concerns the bytes it
+		// still delivers, and must leave the reader at offset + consumed
+		env := bytes.Repeat([]byte{0x7e}, c.Skip)
+		all := append(env, c.X...)
+		want := Detect(c.X)
+		rd := bytes.NewReader(all)
+		_, _ = io.CopyN(io.Discard, rd, int64(c.Skip))
+		got, err := DetectReader(rd)
+		if err != nil || !c05Same(got, want) {
+			r.Err = fmt.Errorf("bytes.Reader positioned at offset %d: DetectReader = (%s, %v), Detect on the remaining bytes = %s", c.Skip, vfChainStr(got), err, vfChainStr(want))
+			return r
+		}
+		p := filepath.Join(vfScratchDir(), "c05-seek.bin")
+		if err := os.WriteFile(p, all, 0o644); err != nil {
+			panic(err)
+		}
+		f, err := os.Open(p)
+		if err != nil {
+			panic(err)
+		}
+		defer f.Close()
+		_, _ = io.CopyN(io.Discard, f, int64(c.Skip))
+		got, err = DetectReader(f)
+		if err != nil || !c05Same(got, want) {
+			r.Err = fmt.Errorf("*os.File positioned at offset %d: DetectReader = (%s, %v), Detect on the remaining bytes = %s", c.Skip, vfChainStr(got), err, vfChainStr(want))
+			return r
+		}
+		pos, _ := f.Seek(0, io.SeekCurrent)
+		if max := int64(c.Skip) + int64(min(len(c.X), int(defaultLimit))); pos > max || pos < int64(c.Skip) {
+			r.Err = fmt.Errorf("*os.File positioned at offset %d is left at offset %d after DetectReader (expected at most %d)", c.Skip, pos, max)
+		}
+	case "slice-of-4GiB":
+		// a slice of exactly 2^32 (+k) bytes: only the first `limit` bytes may count. The slice is
+		// never touched beyond its head (the pages stay unmapped).
+		for _, n := range []int{1 << 32, 1<<32 + 1000} {
+			big := make([]byte, n)
+			copy(big, "plain text head, then zero bytes beyond the limit\n")
+			for i := 48; i < 4000; i++ {
+				big[i] = 'a'
+			}
+			for _, lim := range []uint32{defaultLimit, 1000} {
+				SetLimit(lim)
+				got := Detect(big)
+				want := Detect(big[:lim:lim])
+				if !c05Same(got, want) {
+					r.Err = fmt.Errorf("Detect on a %d-byte slice under limit %d = %s, on its first %d bytes = %s", n, lim, vfChainStr(got), lim, vfChainStr(want))
+					return r
+				}
+			}
+		}
+	case "limit-near-2^32":
+		// limits just below 2^32 through the reader (DetectReader allocates that much: run once)
+		for _, lim := range []uint32{0xffffffff, 0xfffff001} {
+			SetLimit(lim)
+			want := Detect(c.X)
+			got, err := DetectReader(bytes.NewReader(c.X))
+			if err != nil || !c05Same(got, want) {
+				r.Err = fmt.Errorf("limit %d: DetectReader = (%s, %v), Detect = %s", lim, vfChainStr(got), err, vfChainStr(want))
+				return r
+			}
+		}
+	case "procfs":
+		n, err := vfProcfs(func(path string, content []byte, viaFile *MIME, derr error) error {
+			want := Detect(content)
+			if derr != nil || !c05Same(viaFile, want) {
+				return fmt.Errorf("DetectFile(%s) = (%s, %v) but Detect on the file's %d bytes = %s", path, vfChainStr(viaFile), derr, len(content), vfChainStr(want))
+			}
+			return nil
+		})
+		r.Err = err
+		if n == 0 {
+			return vfResult{Skip: "no-procfs"}
+		}
+	}
+	return r
+}
+
 func TestVerif_C05(t *testing.T) {
+	defer vfStats.dump()
+	if vfOnlySub("special") {
+		vfRun(t, vfSub[c05Special]{Prop: "C05", Name: "special", Check: c05SpecialCheck})
+		if !vfReplayMode() && !t.Failed() {
+			var cases []c05Special
+			for i, s := range vfSeeds() {
+				if i%7 == 0 {
+					cases = append(cases, c05Special{Kind: "seekable-at-offset", X: s.Data, Skip: []int{1, 4, 512, 4096}[i%4]})
+				}
+			}
+			cases = append(cases, c05Special{Kind: "procfs"}, c05Special{Kind: "slice-of-4GiB"})
+			if vfShard() == 0 {
+				cases = append(cases, c05Special{Kind: "limit-near-2^32", X: vfB(`{"type":"Feature","geometry":null}`)})
+			}
+			for i, c := range cases {
+				if i%vfNShards() != vfShard() && c.Kind == "seekable-at-offset" {
+					continue
+				}
+				if c.Kind != "seekable-at-offset" && c.Kind != "limit-near-2^32" && vfShard() != 1%vfNShards() {
+					continue
+				}
+				r := c05SpecialCheck(c)
+				vfStats.record(r, func() any { return map[string]any{"sub": "special", "kind": c.Kind, "skip": c.Skip, "len": len(c.X)} })
+				if r.Err != nil {
+					vfEnumFail(t, "C05", "special", c, r.Err)
+					return
+				}
+			}
+		}
+	}
+	if t.Failed() || !vfOnlySub("gen") {
+		return
+	}
 	vfRun(t, vfSub[c05Case]{Prop: "C05", Name: "gen", Checks: vfN(120000, 24000000), Gen: c05Gen, Check: c05Check,
 		Sample: func(c c05Case) any {
 			return map[string]any{"len": len(c.X), "limit": c.Limit, "chunks": c.Chunks, "eof_with_data": c.EOFWithData, "fault_at": c.FaultAt, "fault_with_data": c.FaultData, "file": c.File, "x": vfQ(c.X[:min(60, len(c.X))])}
